@@ -892,4 +892,224 @@ theorem foldl_table {α β : Type} (f : α → Option (List β)) :
       · exact Or.inr ⟨x', List.mem_cons_of_mem _ hx', t', ht', hyt⟩
 
 
+/-! ### aggregation -/
+
+theorem mergeKey_sum : ∀ (d : List (Nat × Nat)) (kv : Nat × Nat),
+    ((mergeKey d kv).map (·.2)).sum = (d.map (·.2)).sum + kv.2
+  | [], kv => by simp [mergeKey]
+  | (k, v) :: rest, kv => by
+    simp only [mergeKey]
+    split_ifs
+    · simp only [List.map_cons, List.sum_cons]; omega
+    · simp only [List.map_cons, List.sum_cons, mergeKey_sum rest kv]; omega
+
+theorem foldl_mergeKey_sum : ∀ (ev d : List (Nat × Nat)),
+    ((ev.foldl mergeKey d).map (·.2)).sum = (d.map (·.2)).sum + (ev.map (·.2)).sum
+  | [], d => by simp
+  | kv :: ev, d => by
+    simp only [List.foldl_cons, foldl_mergeKey_sum ev, mergeKey_sum, List.map_cons, List.sum_cons]; omega
+
+theorem aggLoop_spec : ∀ (counts : List Int) (gens : List DsGen) (n : Nat) (d : List (Nat × Nat))
+    (n' : Nat) (d' : List (Nat × Nat)), gens.length = counts.length →
+    (∀ g ∈ gens, ∀ c r, g c = some r → (r.1 : Int) = c ∧ (r.2.map (·.2)).sum = r.1) →
+    aggLoop n d counts gens = some (n', d') →
+    (n' : Int) = n + counts.sum ∧ (((d'.map (·.2)).sum : Nat) : Int) = ((d.map (·.2)).sum : Nat) + counts.sum
+  | [], [], n, d, n', d', _, _, h => by
+    simp only [aggLoop, Option.some.injEq, Prod.mk.injEq] at h
+    obtain ⟨rfl, rfl⟩ := h; simp
+  | [], _ :: _, _, _, _, _, hl, _, _ => by simp at hl
+  | _ :: _, [], _, _, _, _, hl, _, _ => by simp at hl
+  | c :: cs, g :: gs, n, d, n', d', hl, hsub, h => by
+    simp only [aggLoop] at h
+    split at h
+    · exact absurd h (by simp)
+    · rename_i k ev hg
+      obtain ⟨e1, e2⟩ := hsub g (by simp) c (k, ev) hg
+      obtain ⟨a1, a2⟩ := aggLoop_spec cs gs (n + k) (ev.foldl mergeKey d) n' d' (by simpa using hl)
+        (fun g' hg' => hsub g' (by simp [hg'])) h
+      simp only at e1 e2
+      rw [foldl_mergeKey_sum, e2] at a2
+      simp only [List.sum_cons]
+      constructor
+      · rw [a1]; push_cast; omega
+      · rw [a2]; push_cast; omega
+
+
+/-! ### explicit form of the candidate selection -/
+
+section table
+set_option linter.unusedSectionVars false
+variable {F : Type} [Add F] [Sub F] [Mul F] [Div F] [Neg F] [OfNat F 0] [OfNat F 2]
+  [LE F] [DecidableLE F] [Transc F]
+
+theorem inBand_iff (b : F × F) (s : F) : inBand b s = true ↔ b.1 ≤ s ∧ s ≤ b.2 := by
+  simp [inBand]
+
+theorem inE_iff (er : Option (F × F)) (e : F) :
+    inE er e = true ↔ ∀ lo hi, er = some (lo, hi) → lo ≤ e ∧ e ≤ hi := by
+  cases er with
+  | none => simp [inE]
+  | some p =>
+    obtain ⟨lo, hi⟩ := p
+    simp only [inE, Bool.and_eq_true, decide_eq_true_eq, Option.some.injEq, Prod.mk.injEq]
+    constructor
+    · rintro h _ _ ⟨rfl, rfl⟩; exact h
+    · intro h; exact h lo hi ⟨rfl, rfl⟩
+
+/-- everything a row of `groupCands` carries: tags, indices, closed band, closed energy range, weight formula -/
+theorem groupCands_mem (g j : Nat) (G : Grp F) (evs : List (Ev F)) (lt fac : F)
+    (tab : List (Cand × F)) (h : groupCands g j G evs lt fac = some tab) (cw : Cand × F) (hm : cw ∈ tab) :
+    ∃ L U src e, minMax (evs.map (·.s)) = some (L, U) ∧ cw.1.ds = j ∧ cw.1.shg = g ∧
+      G.srcs[cw.1.src]? = some src ∧ evs[cw.1.ev]? = some e ∧
+      (band src.1 G.hbw L U).1 ≤ e.s ∧ e.s ≤ (band src.1 G.hbw L U).2 ∧
+      (∀ lo hi, G.er = some (lo, hi) → lo ≤ e.e ∧ e.e ≤ hi) ∧
+      cw.2 = candWeight e.mcw e.f G.unit (omega (band src.1 G.hbw L U)) src.2 lt fac := by
+  unfold groupCands at h
+  split at h
+  · exact absurd h (by simp)
+  · rename_i L U hmm
+    simp only [Option.some.injEq] at h
+    subst h
+    simp only [List.mem_flatMap, List.mem_map, List.mem_filter, Bool.and_eq_true] at hm
+    obtain ⟨sk, hsk, ei, ⟨hei, hb, he⟩, rfl⟩ := hm
+    rw [List.mem_zipIdx_iff_getElem?] at hsk hei
+    rw [inBand_iff] at hb
+    rw [inE_iff] at he
+    exact ⟨L, U, sk.1, ei.1, hmm, rfl, rfl, hsk, hei, hb.1, hb.2, he, rfl⟩
+
+end table
+
+/-! ### output buffer -/
+
+theorem unwrapAll_map_some {α : Type} (l : List α) : unwrapAll (l.map some) = some l := by
+  induction l with
+  | nil => rfl
+  | cons x xs ih => simp [unwrapAll, ih]
+
+/-- the slice written by `setSel` -/
+def writeAt {α : Type} (buf : List (Option α)) (s : Nat) (rows : List α) : List (Option α) :=
+  buf.take s ++ rows.map some ++ buf.drop (s + rows.length)
+
+theorem writeAt_length {α : Type} (buf : List (Option α)) (s : Nat) (rows : List α)
+    (h : s + rows.length ≤ buf.length) : (writeAt buf s rows).length = buf.length := by
+  simp only [writeAt, List.length_append, List.length_take, List.length_map, List.length_drop]
+  omega
+
+theorem writeAt_writeAt {α : Type} (buf : List (Option α)) (s : Nat) (a b : List α)
+    (h : s + a.length + b.length ≤ buf.length) :
+    writeAt (writeAt buf s a) (s + a.length) b = writeAt buf s (a ++ b) := by
+  have hl : (buf.take s ++ a.map some).length = s + a.length := by
+    simp only [List.length_append, List.length_take, List.length_map]; omega
+  unfold writeAt
+  have e1 : (buf.take s ++ a.map some ++ buf.drop (s + a.length)).take (s + a.length)
+      = buf.take s ++ a.map some := by
+    rw [← hl]; exact List.take_left
+  have e2 : (buf.take s ++ a.map some ++ buf.drop (s + a.length)).drop (s + a.length + b.length)
+      = buf.drop (s + a.length + b.length) := by
+    rw [List.drop_append, List.drop_eq_nil_of_le (by rw [hl]; omega), hl, List.nil_append, List.drop_drop]
+    congr 1; omega
+  rw [e1, e2]
+  simp only [List.map_append, List.length_append, List.append_assoc, Nat.add_assoc]
+
+theorem writeAt_nil {α : Type} (buf : List (Option α)) (s : Nat) (h : s ≤ buf.length) :
+    writeAt buf s ([] : List α) = buf := by
+  simp [writeAt]
+
+section gen
+set_option linter.unusedSectionVars false
+variable {F : Type} [Add F] [Div F] [LE F] [DecidableLE F] [LT F] [DecidableLT F] [OfNat F 0]
+
+/-- the buffered group loop computes the concatenation of the list model, written at `start` -/
+theorem genShgsBuf_eq (right : Bool) (cands : List Cand) (cdf : List F) (valid : Nat → Bool) (ds : Nat)
+    (mrows : List (Nat × Cand)) (hm : ∀ rc ∈ mrows, cands[rc.1]? = some rc.2) :
+    ∀ (gs : List Nat) (buf : List (Option (Nat × Cand))) (start : Nat) (us : List F), start ≤ buf.length →
+      genShgsBuf right cands cdf valid ds mrows gs buf start us =
+        match genShgs right cands cdf valid ds mrows gs us with
+        | none => none
+        | some (rows, us') =>
+          if start + rows.length ≤ buf.length then some (writeAt buf start rows, start + rows.length, us')
+          else none
+  | [], buf, start, us, hs => by
+    simp only [genShgsBuf, genShgs, List.length_nil, Nat.add_zero]
+    rw [if_pos hs, writeAt_nil buf start hs]
+  | g :: gs, buf, start, us, hs => by
+    simp only [genShgsBuf, genShgs]
+    cases hg : genGroup right cands cdf valid ds g
+        (mrows.filter (fun rc => rc.2.ds == ds && rc.2.shg == g)) us with
+    | none => rfl
+    | some r =>
+      obtain ⟨out, us'⟩ := r
+      have hlen : out.length = (mrows.filter (fun rc => rc.2.ds == ds && rc.2.shg == g)).length :=
+        (C18.genGroup_spec right cands cdf valid ds g _ us (out, us')
+          (by
+            intro rc hrc
+            simp only [List.mem_filter, Bool.and_eq_true, beq_iff_eq] at hrc
+            exact ⟨hm rc hrc.1, hrc.2.1, hrc.2.2⟩) hg).1
+      simp only
+      rw [← hlen]
+      by_cases hfit : start + out.length ≤ buf.length
+      · have hsel : setSel buf start out.length out = some (writeAt buf start out) := by
+          simp [setSel, hfit, writeAt]
+        rw [hsel]
+        simp only
+        rw [genShgsBuf_eq right cands cdf valid ds mrows hm gs (writeAt buf start out) (start + out.length) us'
+          (by rw [writeAt_length buf start out hfit]; exact hfit)]
+        cases hr : genShgs right cands cdf valid ds mrows gs us' with
+        | none => rfl
+        | some r2 =>
+          obtain ⟨rest, us''⟩ := r2
+          simp only [writeAt_length buf start out hfit, List.length_append]
+          by_cases hfit2 : start + out.length + rest.length ≤ buf.length
+          · rw [if_pos hfit2, if_pos (by omega), writeAt_writeAt buf start out rest hfit2]
+            simp only [Nat.add_assoc]
+          · rw [if_neg hfit2, if_neg (by omega)]
+      · have hsel : setSel buf start out.length out = none := by
+          simp [setSel, hfit]
+        rw [hsel]
+        simp only
+        cases hr : genShgs right cands cdf valid ds mrows gs us' with
+        | none => rfl
+        | some r2 =>
+          obtain ⟨rest, us''⟩ := r2
+          simp only [List.length_append]
+          rw [if_neg (by omega)]
+
+theorem genDssBuf_eq (right : Bool) (cands : List Cand) (cdf : List F) (valid : Nat → Bool)
+    (mrows : List (Nat × Cand)) (hm : ∀ rc ∈ mrows, cands[rc.1]? = some rc.2) :
+    ∀ (dl : List Nat) (us : List F),
+      genDssBuf right cands cdf valid mrows dl us = genDss right cands cdf valid mrows dl us
+  | [], us => rfl
+  | d :: dl, us => by
+    simp only [genDssBuf, genDss]
+    rw [genShgsBuf_eq right cands cdf valid d mrows hm _ _ 0 us (Nat.zero_le _)]
+    cases hg : genShgs right cands cdf valid d mrows
+        (uniq ((mrows.filter (fun rc => rc.2.ds == d)).map (·.2.shg))) us with
+    | none => rfl
+    | some r =>
+      obtain ⟨rows, us'⟩ := r
+      have hl : rows.length = (mrows.filter (fun rc => rc.2.ds == d)).length := by
+        rw [(C18.genShgs_spec right cands cdf valid d mrows hm _ us (rows, us') hg).1, C18.partition_shg]
+      simp only [List.length_replicate, Nat.zero_add]
+      rw [if_pos (by omega)]
+      have hw : writeAt (List.replicate (mrows.filter (fun rc => rc.2.ds == d)).length
+          (none : Option (Nat × Cand))) 0 rows = rows.map some := by
+        simp [writeAt, hl]
+      simp only [hw, unwrapAll_map_some, genDssBuf_eq right cands cdf valid mrows hm dl us']
+
+/-- **the code-shaped generation (pre-allocated buffer per dataset, `fill_start_idx`, every slot must have been
+written) computes exactly what the list model computes** — so `c18_count_conserved`, `c18_all_valid`,
+`c18_injected_from_band` … are statements about the buffered model the driver runs. -/
+theorem generateBuf_eq' (right : Bool) (cands : List Cand) (cdf : List F) (valid : Nat → Bool) (n : Nat) (us : List F) :
+    generateBuf right cands cdf valid n us = generate right cands cdf valid n us := by
+  unfold generateBuf generate
+  split_ifs
+  · rfl
+  · cases hd : drawRows right cands cdf (us.take n) with
+    | none => rfl
+    | some mrows =>
+      simp only
+      rw [genDssBuf_eq right cands cdf valid mrows (C18.drawRows_spec right cands cdf _ _ hd).2]
+
+end gen
+
 end C18
